@@ -29,7 +29,7 @@ package relayer_manager
 //@   ensures err == nil ==> r0 != nil && Store[rmKey("relayerRemove", removeID)] != None
 
 //@ func ApproveRegisterRelayer
-//@   property C33, C18
+//@   property C33, C18, C32
 //@   mode abstract
 //@   requires native != nil && native.tx != nil
 //@   modifies Store
@@ -49,7 +49,7 @@ package relayer_manager
 //@   ensures[c36-onlyapproved] !fired ==> forall a common.Address :: Store[relayerKey(a)] == old(Store)[relayerKey(a)]
 
 //@ func ApproveRemoveRelayer
-//@   property C33, C18
+//@   property C33, C18, C32
 //@   mode abstract
 //@   requires native != nil && native.tx != nil
 //@   modifies Store
